@@ -161,6 +161,9 @@ def iterFuel {σ ρ : Type} : Nat → (σ → Sum σ ρ) → (σ → ρ) → σ 
     | .inl s' => iterFuel n step fin s'
     | .inr r => r
 
+/-- `&v[lo..hi]` -/
+def listSlice {α} (l : List α) (lo hi : Nat) : List α := (l.drop lo).take (hi - lo)
+
 /-- `v[i]` (Rust panics out of range; the model returns a default, and the properties never index out of range) -/
 def listGet {α} [Inhabited α] (l : List α) (i : Nat) : α := l[i]!
 
